@@ -52,13 +52,16 @@ func opts(tier string, qDepth, tDepth int, qSecs, tSecs int, qConf, tConf int) m
 func init() {
 	regScenario(C15{})
 	regScenario(C15{Seeded: true})
+	regScenario(C15{Legacy: true})
 	Props["C15"] = Prop{Level: "model_checking", Run: func(r *mc.Run, tier string) {
 		r.Rules = append(r.Rules, "BFS over Init/Shutdown by 3 accounts (one under-funded) x collateral-price changes x NextBlock; a state is distinct by the full storage+bank stores, header and model; non-trivial = first reached by an accepted state-changing event")
 		r.Assumptions = append(r.Assumptions, "price alphabet {p, 2p, p/2}; 3 registrants", "seam A omits fees/signatures (zero-fee signed replay at seam B validates)")
-		r.AddExplore(C15{}, opts(tier, 10, 14, 40, 900, 150, 2000))
+		r.AddExplore(C15{}, opts(tier, 6, 14, 60, 900, 150, 2000))
 		r.Rules = append(r.Rules, "volume: 99, 100, 101 and 130 providers registered at once (one page of a paginated store walk holds 100): escrow = sum and count of the collateral listing, also after a restart of the module from its exported genesis, then every provider shuts down and gets its collateral back")
 		r.AddEnum(c15VolumeEnum(), workers(), time.Time{})
 		r.Rules = append(r.Rules, "lapsing-provider variant: provider A starts registered and listed on three files it never proves again (proof window 2, reward blocks every 2nd block); BFS over up to 6 one-day blocks, init/shutdown by A and B and a price change")
 		r.AddExplore(C15{Seeded: true}, opts(tier, 10, 12, 30, 300, 40, 300))
+		r.Rules = append(r.Rules, "legacy-provider variant: the genesis state holds a provider without a collateral record (registered before collateral existed); BFS over init/shutdown by it and two others and a price change: its shutdown returns nothing, removes it, and lets it register again")
+		r.AddExplore(C15{Legacy: true}, opts(tier, 8, 10, 30, 300, 40, 300))
 	}}
 }
